@@ -433,6 +433,27 @@ func (g *gen) assignments() {
 						}
 					}
 					g.ins = append(g.ins, in)
+					// more credentials of the same type: other field values, an absent field
+					extra := 0
+					if g.cfg.Thorough() {
+						extra = 2
+					} else if n%40 == 0 {
+						extra = 1
+					}
+					rng := g.cfg.Rng
+					for e := 0; e < extra; e++ {
+						sp2 := credgen.Spec{Schema: s}
+						sp2.Values = [5]string{fmt.Sprintf("%d.%02d", rng.Intn(100000), rng.Intn(100)), fmt.Sprintf("%d", rng.Int63n(1<<40)-(1<<39)),
+							fmt.Sprintf("name-%d", rng.Intn(1000000)), []string{"true", "false"}[rng.Intn(2)],
+							fmt.Sprintf("%04d-%02d-%02dT%02d:%02d:%02dZ", 1950+rng.Intn(150), 1+rng.Intn(12), 1+rng.Intn(28), rng.Intn(24), rng.Intn(60), rng.Intn(60))}
+						if rng.Intn(3) == 0 {
+							sp2.Omit = []string{credgen.FieldPaths()[rng.Intn(5)]}
+						}
+						if rng.Intn(2) == 0 {
+							sp2.Subject = did
+						}
+						g.ins = append(g.ins, &Input{Kind: kind, Asg: asg, Schema: s, Cred: &sp2, InModel: true})
+					}
 					n++
 				}
 			}
